@@ -330,7 +330,7 @@ def absRat (r : Rat) : Rat := if r < 0 then -r else r
 def normFactor (ds : DS) (couplings : List String) : Vec :=
   couplings.flatMap (fun c =>
     match ds.find? c with
-    | some v => (v.lb.zip v.ub).map (fun p => absRat (scaleOf p.1 p.2) + 1)
+    | some v => (v.lb.zip v.ub).map (fun p => absRat (scaleOf p.1 p.2))
     | none => [])
 
 def divRows (m : Mat) (f : Vec) : Mat := List.zipWith (fun row s => row.map (fun a => a / s)) m f
